@@ -85,9 +85,9 @@ func VxC18HistoryPrunerMigration() {
 	for b := 0; b < n; b++ {
 		num := uint64(b)
 		hashes[b] = felt.NewFromUint64[felt.Felt](0x4000 + num)
-		// quick tier: the minimum-age arm keeps the block contents fixed (one transaction per block,
+		// the minimum-age arm keeps the block contents fixed (one transaction per block,
 		// L1 handler in block 1), the content dimension is explored with the age setting off
-		wide := minAge == 0 || vx.Thorough()
+		wide := minAge == 0
 		ntx := 1
 		if wide {
 			ntx = 1 + vx.Choice("ntx", 2)
@@ -139,7 +139,7 @@ func VxC18HistoryPrunerMigration() {
 	}
 
 	cancelAt := 0
-	if vx.Thorough() {
+	if vx.Thorough() && minAge == 0 {
 		cancelAt = vx.Choice("cancel-at", 25)
 	} else if minAge == 0 {
 		cancelAt = []int{0, 3, 7, 11, 16}[vx.Choice("cancel-at", 5)]
